@@ -316,6 +316,13 @@ int main(int argc, char** argv)
     }
 
     size_t spaced_bins = std::ceil(ps_bins*nbuckets*spacing_ps);
+    if (nbuckets > 1) {
+        /* spacing_bins is rounded per bucket: make sure the last bunch,
+         * at (nbuckets-1)*spacing_bins, still fits into the padded profile */
+        spaced_bins = std::max(spaced_bins,
+                               static_cast<size_t>(nbuckets-1)*spacing_bins
+                               + static_cast<size_t>(ps_bins));
+    }
     if (opts.getRoundPadding()) {
         spaced_bins = upper_power_of_two(spaced_bins);
     }
